@@ -6,9 +6,10 @@ Definition c13_z_for_vutil : BinNums.Z := BinNums.Z0.
 Extraction Language OCaml.
 Extraction "../build/ocaml/C13/model.ml"
   run enabled cur_step cur_init cur_final cu_fb it_step it_init it_uaf sh_step sh_step_cfg sh_init sh_final sh_gone sh_pcI sh_wait sh_shut
-  cfg_head cfg_selfail cfg_selfail_fixed cfg_nojoin sh_selfail_witness sh_nojoin_witness
+  cfg_head cfg_before_86ddb5d cfg_nojoin sh_init_pending sh_init_onhold sh_pend sh_selfail_witness sh_nojoin_witness
   th_run th_cycles th_zombie th_live lock_table lock_table_palette lock_table_n respects_rank
   c13_z_for_vutil cur_witness it_witness sh_witness sh_finishing sj_step sj_init sj_uaf sj_freed sj_final sj_witness
   nf_step nf_init nf_final nf_ok nf_send nf_badunlock nf_pcA nf_pcB nf_gone_witness nf_new_witness nf_finishing
+  rc_step rc_init rc_final rc_reclaimed rc_bad rc_joined rc_detached rc_leak_witness rc_early_witness rc_finishing
   iw_step iw_init iw_final iw_uaf iw_fr0 iw_fr1
   P_send P_cursor P_upd P_list P_ref P_out.
